@@ -434,4 +434,34 @@ theorem weighted_eq_of_all_predicted (t p : List Int) (x : Rat) (hlen : t.length
     intro l hl'
     rw [(hsc l hl').2.2, hrows l hl', tab_getD, if_pos hl']
 
+/-- a binary problem has label 1: the matrices have at least two rows -/
+theorem isBinary_nLabels (t p : List Int) (h : isBinary t p = true) : 1 < nLabels t p := by
+  unfold isBinary at h
+  simp only [Bool.and_eq_true, List.contains_iff_mem, List.mem_append, List.mem_filter, decide_eq_true_eq] at h
+  obtain ⟨_, h1⟩ := h
+  unfold nLabels
+  rcases h1 with ⟨hm, _⟩ | ⟨hm, _⟩
+  · have := (foldl_max_ge t (-1)).2 1 hm
+    omega
+  · have := (foldl_max_ge p (-1)).2 1 hm
+    omega
+
+/-- ★ `get_f1_score` (binary): F1, precision and recall of label 1 -/
+theorem f1Binary_eq (t p : List Int) (a b c : Rat) (h : f1Binary t p = .ok (a, b, c)) :
+    a = Spec.f1Def (Spec.conf t p) (nLabels t p) 1 ∧ b = Spec.precisionDef (Spec.conf t p) (nLabels t p) 1 ∧
+    c = Spec.recallDef (Spec.conf t p) (nLabels t p) 1 := by
+  unfold f1Binary at h
+  by_cases hb : isBinary t p = true
+  · simp only [hb, Bool.not_true, Bool.false_eq_true, if_false] at h
+    cases hs : f1Scores t p with
+    | error e => rw [hs] at h; cases h
+    | ok s =>
+      rw [hs] at h
+      simp only [Except.map, Except.ok.injEq, Prod.mk.injEq] at h
+      obtain ⟨h1, h2, h3⟩ := h
+      obtain ⟨r1, r2, r3⟩ := scores_eq t p s hs 1 (isBinary_nLabels t p hb)
+      exact ⟨by rw [← h1, r3], by rw [← h2, r2], by rw [← h3, r1]⟩
+  · have : isBinary t p = false := by simpa using hb
+    simp [this] at h
+
 end SkNet.ClassMetrics
